@@ -180,34 +180,37 @@ structure FrameH where
 
 def rtInfoSize : Nat := Gen.sz_libwifi_radiotap_info
 
+/-- stage 1 of `libwifi_get_wifi_frame`: the radiotap parse and the FCS length check happen before any allocation -/
+def classifyPre (radiotap : Bool) (bs : Bytes) : Outcome (Nat × Bool) :=
+  if radiotap then
+    match parseRadiotapInfo bs with
+    | .ok info =>
+      let fcs := (info.flags / rtFlagFcs) % 2 = 1
+      if fcs ∧ bs.length - info.length < 4 then .err (-EINVAL) else .ok (info.length, fcs)
+    | .err c => .err c
+    | .fault f => .fault f
+  else .ok (0, false)
+
+/-- last stage: the body copy -/
+def classifyTail (σ : Nat → Bool) (rtPtr : Ptr) : Outcome Frame → M (Int × FrameH)
+  | .ok fr =>
+    if fr.len - fr.headerLen > 0 then do
+      match ← malloc σ (fr.len - fr.headerLen) with
+      | none => pure (-ENOMEM, { f := none, rtPtr := rtPtr })
+      | some b => pure (0, { f := some fr, rtPtr := rtPtr, bodyPtr := some b })
+    else pure (0, { f := some fr, rtPtr := rtPtr })
+  | .err c => pure (c, { f := none, rtPtr := rtPtr })
+  | .fault _ => pure (-999, { f := none, rtPtr := rtPtr })
+
 /-- `libwifi_get_wifi_frame`: (return value, frame with its owned blocks) -/
 def classifyH (σ : Nat → Bool) (radiotap : Bool) (bs : Bytes) : M (Int × FrameH) := do
-  -- stage 1: radiotap parse and FCS length check happen before any allocation
-  let pre : Outcome (Nat × Bool) :=
-    if radiotap then
-      match parseRadiotapInfo bs with
-      | .ok info =>
-        let fcs := (info.flags / rtFlagFcs) % 2 = 1
-        if fcs ∧ bs.length - info.length < 4 then .err (-EINVAL) else .ok (info.length, fcs)
-      | .err c => .err c
-      | .fault f => .fault f
-    else .ok (0, false)
-  match pre with
+  match classifyPre radiotap bs with
   | .err c => pure (c, { f := none })
   | .fault _ => pure (-999, { f := none })
   | .ok _ =>
     let rtPtr ← if radiotap then malloc σ rtInfoSize else pure none
     if radiotap ∧ rtPtr.isNone then pure (-ENOMEM, { f := none })
-    else
-      match classify radiotap bs with
-      | .ok fr =>
-        if fr.len - fr.headerLen > 0 then
-          match ← malloc σ (fr.len - fr.headerLen) with
-          | none => pure (-ENOMEM, { f := none, rtPtr := rtPtr })
-          | some b => pure (0, { f := some fr, rtPtr := rtPtr, bodyPtr := some b })
-        else pure (0, { f := some fr, rtPtr := rtPtr })
-      | .err c => pure (c, { f := none, rtPtr := rtPtr })
-      | .fault _ => pure (-999, { f := none, rtPtr := rtPtr })
+    else classifyTail σ rtPtr (classify radiotap bs)
 
 def freeFrameH (fh : FrameH) : M Unit := do
   free fh.rtPtr
